@@ -1,19 +1,20 @@
 (* C02 (the wake-up half): theorems about the model for the predicates of C02_Pred.v and
-   refutation witnesses for the known classes D2 / D8 / D9. *)
+   refutation witness for the known class D9, regression examples for the repaired D2 / D8 / D14. *)
 From Utp Require Import Base.Prelude Wire.SeqNr Wire.Header Rtt.Rtte Mtu.SegSizes Rx.Rx Rx.Rx_Proofs
   Tx.Ring Tx.Ring_Proofs Tx.Segments Conn.Recovery Conn.Msg Conn.VSockRec Conn.VSock Conn.VSockRun
   Conn.VObs Conn.C10_Pred Conn.C02_Pred Conn.VSock_Inv Conn.C10_Proofs.
 
 (* ------------------------------------------------------------------ witnesses *)
-(* D2: P H P — the shutdown wakes nobody although the dispatcher is parked on the TX waker *)
+(* D2 (repaired in /repo): P H P — the shutdown on the idle connection wakes the dispatcher parked on
+   the TX waker, and the next poll emits the FIN.  Regression example on the witness of the old defect. *)
 Definition d2_ops : list vop := [VoPoll []; VoShutdown; VoPoll []].
 
-Lemma shutdown_idle_wakes_nobody_refuted :
+Lemma shutdown_idle_regression :
   exists w cfg ops,
     vconfig_ok cfg = true /\
-    forallb (c02_shutdown_wakes cfg) (wtrace w cfg ops) = false /\
-    existsb (c02_d2_class cfg) (wtrace w cfg ops) = true /\
-    (* ... and yet the next poll does emit the FIN *)
+    existsb shutdown_idle_guard (wtrace w cfg ops) = true /\
+    forallb (c02_shutdown_wakes cfg) (wtrace w cfg ops) = true /\
+    existsb (c02_d2_class cfg) (wtrace w cfg ops) = false /\
     c02_prompt cfg (wtrace w cfg ops) = true /\
     match rev (wtrace w cfg ops) with
     | st :: _ => emits (fs_result st) (fun p => match ch_type (fq_hdr p) with ST_FIN => true | _ => false end)
@@ -23,29 +24,30 @@ Proof.
   exists 1056, (wcfg 1048576), d2_ops. repeat split; vm_compute; reflexivity.
 Qed.
 
-(* D8: P R100 M1(FIN in sequence) P R100 — the reader parked by the first read is not woken by
-   the poll that flushes the EOF; the second read returns EOF *)
+(* D8 (repaired in /repo): P R100 M1(FIN in sequence) P R100 — the reader parked by the first read IS
+   woken by the poll that flushes the EOF; the second read returns EOF.  Regression example. *)
 Definition d8_ops : list vop :=
   [VoPoll []; VoRead 100; VoDeliver (wmsg ST_FIN 1 100 0); VoPoll []; VoRead 100].
 
-Lemma eof_flush_wakes_nobody_refuted :
+Lemma eof_flush_regression :
   exists w cfg ops,
     vconfig_ok cfg = true /\ Forall op_msg_ok ops /\
-    forallb (c02_eof_wakes cfg) (wtrace w cfg ops) = false /\
-    existsb (c02_d8_class cfg) (wtrace w cfg ops) = true /\
+    existsb eof_flush_guard (wtrace w cfg ops) = true /\
+    forallb (c02_eof_wakes cfg) (wtrace w cfg ops) = true /\
+    existsb (c02_d8_class cfg) (wtrace w cfg ops) = false /\
     match rev (wtrace w cfg ops) with st :: _ => fs_result st = FrReadEof | [] => False end.
 Proof.
   exists 1056, (wcfg 1048576), d8_ops.
   split; [vm_compute; reflexivity|]. split; [repeat constructor|].
-  split; [vm_compute; reflexivity|]. split; vm_compute; reflexivity.
+  split; [vm_compute; reflexivity|]. split; [vm_compute; reflexivity|]. split; vm_compute; reflexivity.
 Qed.
 
-(* the same at the component level: `rx 100 10 r10 a1,0,0,0 f` *)
-Lemma rx_eof_flush_wakes_nobody_refuted :
+(* the same at the component level: `rx 100 10 r10 a1,0,0,0 f` now fires the reader's waker *)
+Lemma rx_eof_flush_regression :
   exists s,
     rx_inv s /\ reader_waker s = true /\ q s = [] /\
     let '(s', r, w) := rx_flush s in
-    r = FlOk 0 /\ w = [] /\ q s' = [QEof] /\ reader_waker s' = true.
+    r = FlOk 0 /\ w = [WakeReader] /\ q s' = [QEof] /\ reader_waker s' = false.
 Proof.
   exists (rx_run (rx_build 100 10) [ORead 10; OAddRemove KFin [] 0]).
   split; [apply rx_reachable_inv; [lia|lia|repeat constructor; cbn; lia]|].
@@ -71,6 +73,55 @@ Proof.
   split; [vm_compute; reflexivity|]. split.
   { repeat constructor; cbv [op_msg_ok msg_ok wmsg m_hdr ch_type m_payload]; vm_compute; discriminate. }
   split; [vm_compute; reflexivity|]. split; vm_compute; reflexivity.
+Qed.
+
+(* D14 (repaired in /repo): a poll that pops an expired MTU probe while other segments are still
+   unacknowledged keeps a retransmission timer (re-armed for one RTO from now) instead of turning it
+   off.  Regression example on the witness of the old defect (constant window 1056: nothing can be
+   sent after the pop, so only the pop itself decides the timer).
+   case: vsock out 1 1500 1500 32768 1048576 0 1 10000000000 0 0 65535 0 2065 1048576 2464197817 1000000
+         W16434,0 P M2,0,1,524288,0,0,0,- P T520500000 P *)
+Definition d14_cfg : vconfig :=
+  {| vc_incoming := false; vc_ipv4 := true; vc_link_mtu := 1500; vc_rx_buf := 1500;
+     vc_tx_init := 32768; vc_tx_max := 1048576; vc_nagle := false; vc_max_retx := 1;
+     vc_inactivity := 10000000000; vc_wait_last_ack := false; vc_mtu_probe_max_retx := 0;
+     vc_isn := 65535; vc_remote_seq := 0; vc_remote_conn_id := 2065; vc_remote_wnd := 1048576;
+     vc_remote_ts := 2464197817; vc_syn_sent := 0; vc_now0 := 1000000 |}.
+
+Definition d14_ack : msg :=
+  {| m_hdr := {| ch_type := ST_STATE; ch_conn_id := 0; ch_ts := 0; ch_ts_diff := 0; ch_wnd := 524288;
+                 ch_seq := 0; ch_ack := 1; ch_sack := None; ch_close_reason := None |};
+     m_payload := [] |}.
+
+Definition d14_ops : list vop :=
+  [VoWrite (repeat 0 (Z.to_nat 16434)); VoPoll []; VoDeliver d14_ack; VoPoll [];
+   VoSetNow 520500000; VoPoll []].
+
+(* the situation of D14: a Pending poll with a writable transport lowered max_ss (it popped an
+   expired probe) and leaves sent, undelivered segments behind *)
+Definition probe_popped_outstanding (st : fstep) : bool :=
+  match fs_event st, fs_result st with
+  | FePoll _, FrPoll PollPending _ _ _ =>
+      (f_max_ss (fs_post st) <? f_max_ss (fs_pre st)) && outstanding (fs_post st) &&
+      negb (f_transport_pending (fs_post st))
+  | _, _ => false
+  end.
+
+Lemma probe_expiry_rto_regression :
+  exists w cfg ops,
+    vconfig_ok cfg = true /\ Forall op_msg_ok ops /\
+    existsb probe_popped_outstanding (wtrace w cfg ops) = true /\
+    forallb (c02_rto_armed cfg) (wtrace w cfg ops) = true /\
+    existsb (c02_d14_class cfg) (wtrace w cfg ops) = false /\
+    (* the timer left behind is one (initial) RTO after the poll *)
+    match rev (wtrace w cfg ops) with
+    | st :: _ => f_t_retransmit (fs_post st) = Some (fs_now st + f_rto (fs_post st))
+    | [] => False
+    end.
+Proof.
+  exists 1056, d14_cfg, d14_ops.
+  split; [vm_compute; reflexivity|]. split; [repeat constructor|].
+  split; [vm_compute; reflexivity|]. split; [vm_compute; reflexivity|]. split; vm_compute; reflexivity.
 Qed.
 
 (* ------------------------------------------------------------------ theorems: application events *)
@@ -141,13 +192,38 @@ Proof.
     unfold rx_drop_reader. cbn [fs_disp_woken]. destruct (disp_waker (v_rx s)); reflexivity.
 Qed.
 
-(* D2, positive half at the component level: the shutdown leaves writer_shutdown set, which is
-   what the next poll acts on (should_close_on_own_initiative) *)
+(* D2 repaired: a shutdown on an idle established connection wakes the dispatcher parked on the TX
+   waker — every state *)
+Lemma shutdown_wakes_ok cfg s : c02_shutdown_wakes cfg (fstep_of s VoShutdown) = true.
+Proof.
+  unfold fstep_of, c02_shutdown_wakes, shutdown_idle_guard. cbn [vstep].
+  destruct (writer_dropped (v_tx s)); [reflexivity|].
+  destruct (poll_shutdown (v_tx s)) as [[tx1 r] w] eqn:E.
+  cbn [fs_event fevent_of fs_result fresult_of fs_pre fs_disp_woken].
+  destruct r; try reflexivity.
+  unfold idle_established, tx_idle, fp_of_vsock;
+    cbn [f_tx_len f_tx_disp_waker f_tx_writer_shutdown f_tx_closed f_segs f_state is_established].
+  destruct (is_established _); [|reflexivity]. cbn [andb].
+  destruct (Z.eqb_spec (Z.of_nat (length (ring (v_tx s)))) 0) as [Hl|]; [|reflexivity]. cbn [andb].
+  destruct (map fseg_of _); [|reflexivity]. cbn [andb].
+  destruct (t_disp_waker (v_tx s)) eqn:Ed; [|reflexivity]. cbn [andb].
+  destruct (writer_shutdown (v_tx s)) eqn:Es; [reflexivity|]. cbn [negb andb].
+  destruct (t_vsock_closed (v_tx s)) eqn:Ec; [reflexivity|]. cbn [negb].
+  assert (Hr : ring (v_tx s) = []) by (destruct (ring (v_tx s)); [reflexivity|cbn [length] in Hl; lia]).
+  destruct (shutdown_idle_wakes_dispatcher _ _ _ _ Hr Ec Es Ed E) as (_ & -> & _). reflexivity.
+Qed.
+
+(* component level: the first shutdown sets writer_shutdown (what the next poll acts on) and fires
+   the dispatcher's waker when it is registered *)
 Lemma shutdown_sets_flag s tx1 r w :
   poll_shutdown s = (tx1, r, w) -> ring s = [] -> t_vsock_closed s = false ->
-  writer_shutdown tx1 = true /\ r = UrPending /\ w = [].
+  writer_shutdown tx1 = true /\ r = UrPending /\
+  (writer_shutdown s = false -> t_disp_waker s = true -> w = [TwDispatcher]).
 Proof.
-  unfold poll_shutdown. intros H Hr Hc. rewrite Hr, Hc in H. injection H as <- <- <-. auto.
+  unfold poll_shutdown. intros H Hr Hc. rewrite Hr, Hc in H.
+  destruct (writer_shutdown s) eqn:Es; injection H as <- <- <-.
+  - repeat split. discriminate.
+  - repeat split. intros _ ->. reflexivity.
 Qed.
 
 (* the RX dispatcher waker is registered by every flush that leaves less than one creation-time
@@ -171,7 +247,7 @@ Proof.
       destruct (_ <? _); [discriminate|].
       intro K. apply IH in K. rewrite K. reflexivity. }
   destruct (flush_loop _ s0 _ 0 0) as [[[[s1 w1] fb] fp]|] eqn:E.
-  - apply Hloop in E. destruct (0 <? fb); injection H as <- _ _; cbn [set_wakers disp_waker];
+  - apply Hloop in E. destruct (0 <? fp); injection H as <- _ _; cbn [set_wakers disp_waker];
       rewrite E; reflexivity.
   - injection H as _ <- _. congruence.
 Qed.
